@@ -33,6 +33,8 @@ for sid in sorted(plan):
         verdict = {0: "MISSED (exit 0)", 1: "caught", 2: "undecided (exit 2)"}.get(rc, str(rc))
         rows.append((sid, prop, tier, verdict, ", ".join(names), f"{cex}/{len(vio)} with counterexample" if vio else (und[0][:120] if und else "")))
         print(rows[-1], flush=True)
+        with open(os.path.join(VERIF, "seeded", "RESULTS.partial.md"), "a") as pf:
+            pf.write("| " + " | ".join(rows[-1]) + " |\n")
 with open(os.path.join(VERIF, "seeded", "RESULTS.md"), "a" if only else "w") as f:
     if not only:
         f.write("| seed | check | tier | verdict | failing units/harnesses | counterexamples |\n|---|---|---|---|---|---|\n")
